@@ -217,4 +217,31 @@ theorem C10_ping_echo (s : State) (now : Nat) (p : Msg) (a b : Option Nat) (t : 
     toPayload (.userControl .pingResponse none none (some t)) = .ok (4, [0, 7] ++ Bytes.be32 t) :=
   ⟨rfl, rfl⟩
 
+/-- A REFUSED STATUS CHANGES NOTHING: an `onStatus` the session refuses (a start status that answers no
+    request of this session, a status without a code, …) leaves the whole session state exactly as it was —
+    the call reports the error and nothing else happens -/
+theorem C10_refused_status_changes_nothing (s : State) (now : Nat) (p : Msg) (tid : Nat) (obj : Val) (args : List Val)
+    (e : Err) (h : handleOnStatus s args = .error e) :
+    handleMessage s now p (.amf0Command (str "onStatus") tid obj args) = (s, .error e) := by
+  unfold handleMessage
+  have h1 : str "onStatus" ≠ str "_result" := by decide
+  have h2 : str "onStatus" ≠ str "_error" := by decide
+  simp only [h1, h2, if_false, if_true, h]
+
+/-- … in particular a start status in any state other than the one that requested it -/
+theorem C10_stray_start_status (s : State) (now : Nat) (p : Msg) (tid : Nat) (obj : Val)
+    (props : List (Bytes × Val)) (rest : List Val) :
+    (propGet (str "code") props = some (.str (str "NetStream.Play.Start")) → s.st ≠ .playRequested →
+      handleMessage s now p (.amf0Command (str "onStatus") tid obj (.object props :: rest)) = (s, .error .invalidState)) ∧
+    (propGet (str "code") props = some (.str (str "NetStream.Publish.Start")) → s.st ≠ .publishRequested →
+      handleMessage s now p (.amf0Command (str "onStatus") tid obj (.object props :: rest)) = (s, .error .invalidState)) := by
+  obtain ⟨a, b⟩ := C10_status s props rest
+  constructor
+  · intro hc hs
+    apply C10_refused_status_changes_nothing
+    rw [a hc, if_neg hs]
+  · intro hc hs
+    apply C10_refused_status_changes_nothing
+    rw [b hc, if_neg hs]
+
 end Rml.C10
